@@ -161,6 +161,21 @@ def full_snapshot(model):
             snap[t] = c13.function_rec(o, reg)
     snap["model"] = (model.ir_version, model.producer_name, model.doc_string, tuple(model.metadata_props.items()), tuple(model.opset_imports.items()),
                      tuple(model.functions), tuple(id(c) for c in model.device_configurations))
+    # the permitted side effect (an initializer tensor's own name follows its value) is also visible wherever the
+    # same tensor OBJECT is referenced from, e.g. as the payload of a tensor attribute: blank the name there too
+    init_toks = {reg.add(o.const_value, "t") for o in c13._objs(roots) if isinstance(o, _core.Value) and o.is_initializer() and o.const_value is not None}
+
+    def patch(x):
+        if isinstance(x, tuple):
+            if len(x) >= 5 and isinstance(x[0], str) and x[0] in init_toks and isinstance(x[1], str) and x[1].endswith("Tensor"):
+                return x[:2] + ("<initializer tensor name>",) + x[3:]
+            return tuple(patch(y) for y in x)
+        return x
+
+    if init_toks:
+        for k in list(snap):
+            if k.startswith("xn") or k.startswith("n"):
+                snap[k] = patch(snap[k])
     return snap
 
 
@@ -339,6 +354,29 @@ def tensor_impl_models(root):
                 n.outputs[0].name = "y"
                 g = ir.Graph([x], [n.outputs[0]], nodes=[n], initializers=[w, w2], name="g", opset_imports={"": 20})
             yield f"{nm}{'_attr' if as_attr else '_init'}", ir.Model(g, ir_version=10)
+        # one tensor object that is an initializer's constant AND the payload of a tensor attribute (a Constant that
+        # was hand-lifted into an initializer while the Constant node stays for another consumer): in the same graph,
+        # in a nested body, and as an element of a TENSORS attribute
+        for place in ("same_graph", "nested_body", "tensors_attribute"):
+            t = mk()
+            x = ir.Value(name="x", type=ir.TensorType(ir.DataType.FLOAT), shape=ir.Shape([2, 3]))
+            w = ir.Value(name="lifted_w", const_value=t)
+            use_w = ir.Node("", "Identity", [w], name="use_w")
+            use_w.outputs[0].name = "y1"
+            if place == "tensors_attribute":
+                holder = ir.Node("custom", "Consts", [], [ir.AttrTensors("values", [t, ir.Tensor(np.zeros((1,), dtype=np.float32), name="other")])], name="holder")
+            else:
+                holder = ir.Node("", "Constant", [], [ir.AttrTensor("value", t)], name="holder")
+            holder.outputs[0].name = "cv"
+            if place == "nested_body":
+                body = ir.Graph([], [holder.outputs[0]], nodes=[holder], name="body")
+                cond = ir.Value(name="cond", type=ir.TensorType(ir.DataType.BOOL), shape=ir.Shape([]))
+                host = ir.Node("", "If", [cond], [ir.AttrGraph("then_branch", body), ir.AttrGraph("else_branch", ir.Graph([], [], nodes=[], name="empty_else"))], name="host")
+                host.outputs[0].name = "y2"
+                g = ir.Graph([x, cond], [use_w.outputs[0], host.outputs[0]], nodes=[host, use_w], initializers=[w], name="g", opset_imports={"": 20})
+            else:
+                g = ir.Graph([x], [use_w.outputs[0], holder.outputs[0]], nodes=[holder, use_w], initializers=[w], name="g", opset_imports={"": 20, "custom": 1})
+            yield f"{nm}_initializer_and_attribute_share_the_tensor[{place}]", ir.Model(g, ir_version=10)
 
 
 def _work(task):
